@@ -2,6 +2,8 @@
 export GOFLAGS=-mod=mod GOPROXY=off GOSUMDB=off GOTOOLCHAIN=local
 export GOROOT=/opt/veriftools/go1.26.8
 export PATH=/opt/veriftools/go1.26.8/bin:$PATH
-export VERIF_ROOT=${VERIF_ROOT:-/verif}
+# the directory these scripts live in (a background run works in a snapshot of /verif and
+# must write its evidence and replay files there, not into /verif)
+export VERIF_ROOT=${VERIF_ROOT:-$(pwd)}
 export VERIF_REPO=${VERIF_REPO:-/repo}
 export GOCACHE=${GOCACHE:-/root/.cache/go-build-verif}
